@@ -49,6 +49,14 @@ fn directed_world() -> WorldSrc {
     WorldSrc { wit, origin: "directed:async-limits".into(), tags: vec!["directed".into()] }
 }
 
+/// Directed world for the canonical-ABI rule "a task holds no borrows when it
+/// calls task.return": exports taking `borrow<R>` of an *imported* resource
+/// (lifted through a temporary own-like handle whose drop is `resource.drop`).
+fn directed_borrow_world() -> WorldSrc {
+    let wit = "package verif:borrows;\n\ninterface things {\n  resource thing;\n}\n\nworld async-borrows {\n  import things;\n  use things.{thing};\n  export use-one: func(t: borrow<thing>) -> u32;\n  export use-two: func(a: borrow<thing>, s: string, b: borrow<thing>) -> string;\n  export use-none: func(t: borrow<thing>);\n  export in-opt: func(o: option<borrow<thing>>, n: u64) -> u32;\n  export in-tuple: func(p: tuple<borrow<thing>, string>, q: borrow<thing>) -> list<string>;\n  export no-handle: func(s: string) -> string;\n}\n".to_string();
+    WorldSrc { wit, origin: "directed:async-borrows".into(), tags: vec!["directed".into(), "resource".into()] }
+}
+
 fn witgen_cfg(rng: &mut Rng) -> witgen::Cfg {
     let mut c = witgen::Cfg::default();
     c.names = witgen::Names::Simple;
@@ -187,6 +195,10 @@ pub fn run(args: &Args, dir: &Path, seed: u64, count: usize, crates: &str, repo:
             let opts = combos[i % combos.len()].clone();
             if i == 0 {
                 sources.push((directed_world(), GenOpts::all()[0].clone(), None));
+                continue;
+            }
+            if i == 1 {
+                sources.push((directed_borrow_world(), GenOpts::all()[0].clone(), None));
                 continue;
             }
             if i <= ncorp {
